@@ -464,6 +464,9 @@ Inductive pexp :=
 | PHasChild (nt : nametest)                 (* x          *)
 | PHasAttr (a : name)                       (* @a         *)
 | PChildPred (nt : nametest) (p : pexp)     (* x[p]       *)
+| PAttrEqChild (a : name) (nt : nametest)   (* @a=x: an attribute compared with a child value *)
+| PChildPosEq (nt : nametest) (i : nat) (v : bytes)  (* x[i]='v', i written as one digit (1..4) *)
+| PCount (nt : nametest) (n : nat)          (* count(x)=n, n written as one digit (0..4) *)
 | PAnd (p q : pexp) | POr (p q : pexp) | PNot (p : pexp).
 
 Record target := mkTarget { t_steps : list (axis * nametest); t_filters : list pexp }.
@@ -515,6 +518,19 @@ Fixpoint pred_of (p : pexp) (t : tree) {struct p} : bool :=
   | PHasChild nt => existsb (fun k => is_element k && nt_match nt (node_name k)) (t_kids t)
   | PHasAttr a => existsb (fun k => is_attr_node k && name_eqb a (node_name k)) (t_kids t)
   | PChildPred nt q => existsb (fun k => is_element k && nt_match nt (node_name k) && pred_of q k) (t_kids t)
+  | PAttrEqChild a nt =>
+      existsb (fun x => is_attr_node x && name_eqb a (node_name x) &&
+                        existsb (fun k => is_element k && nt_match nt (node_name k)
+                                          && bytes_eqb (inner_text x) (inner_text k)) (t_kids t)) (t_kids t)
+  | PChildPosEq nt i v =>
+      match i with
+      | O => false
+      | S j => match nth_error (filter (fun k => is_element k && nt_match nt (node_name k)) (t_kids t)) j with
+               | Some k => bytes_eqb (inner_text k) v
+               | None => false
+               end
+      end
+  | PCount nt n => Nat.eqb (List.length (filter (fun k => is_element k && nt_match nt (node_name k)) (t_kids t))) n
   | PAnd a b => pred_of a t && pred_of b t
   | POr a b => pred_of a t || pred_of b t
   | PNot a => negb (pred_of a t)
@@ -531,6 +547,12 @@ Definition Q1 : byte := x27.  (* single quote *)
 Definition Q2 : byte := x22.  (* double quote *)
 Definition quote (v : bytes) : bytes :=
   if existsb (Byte.eqb Q1) v then Q2 :: v ++ [Q2] else Q1 :: v ++ [Q1].
+Definition digit (n : nat) : bytes :=
+  match n with 0 => bs "0" | 1 => bs "1" | 2 => bs "2" | 3 => bs "3" | 4 => bs "4" | _ => bs "9" end.
+(* operands of and/or are parenthesised only when they are and/or themselves, so that a predicate
+   can begin with an attribute test: [@type='web' and status='ok'] *)
+Definition is_compound (p : pexp) : bool := match p with PAnd _ _ | POr _ _ => true | _ => false end.
+Definition wrap_paren (c : bool) (s : bytes) : bytes := if c then bs "(" ++ s ++ bs ")" else s.
 Fixpoint render_pexp (p : pexp) : bytes :=
   match p with
   | PChildEq nt v => render_nt nt ++ bs "=" ++ quote v
@@ -541,8 +563,11 @@ Fixpoint render_pexp (p : pexp) : bytes :=
   | PHasChild nt => render_nt nt
   | PHasAttr a => bs "@" ++ render_name a
   | PChildPred nt q => render_nt nt ++ bs "[" ++ render_pexp q ++ bs "]"
-  | PAnd a b => bs "(" ++ render_pexp a ++ bs ") and (" ++ render_pexp b ++ bs ")"
-  | POr a b => bs "(" ++ render_pexp a ++ bs ") or (" ++ render_pexp b ++ bs ")"
+  | PAttrEqChild a nt => bs "@" ++ render_name a ++ bs "=" ++ render_nt nt
+  | PChildPosEq nt i v => render_nt nt ++ bs "[" ++ digit i ++ bs "]=" ++ quote v
+  | PCount nt n => bs "count(" ++ render_nt nt ++ bs ")=" ++ digit n
+  | PAnd a b => wrap_paren (is_compound a) (render_pexp a) ++ bs " and " ++ wrap_paren (is_compound b) (render_pexp b)
+  | POr a b => wrap_paren (is_compound a) (render_pexp a) ++ bs " or " ++ wrap_paren (is_compound b) (render_pexp b)
   | PNot a => bs "not(" ++ render_pexp a ++ bs ")"
   end.
 Definition render_steps (steps : list (axis * nametest)) : bytes :=
@@ -780,6 +805,14 @@ Section Flat.
         match d with Some x => [x] | None => [] end ++ flat_run st1 rest
     end.
 End Flat.
+
+(* An instance of a declaration that has child declarations, or of a group (csv2 child_records /
+   record_group, fixedlength2 child_envelopes / envelope_group, EDI segment_group): the node
+   with the instances of its children below it.  It is attached, filtered and removed as ONE
+   subtree: [flat_run] at R := hrec, rsize := hsize. *)
+Inductive hrec := HRec (own : nat) (kids : list hrec).
+Fixpoint hsize (h : hrec) : nat :=
+  let 'HRec own kids := h in own + fold_right (fun k n => hsize k + n) 0 kids.
 
 (* One C17 case of a record-at-a-time reader: record sizes with the filter outcome, the nodes
    outside the records, and the reachable-tree size the harness measured at every delivery. *)
